@@ -9,6 +9,8 @@ import (
 	"os"
 
 	"github.com/gorilla/mux"
+	"github.com/openebs/jiva/controller/client"
+	ctlrest "github.com/openebs/jiva/controller/rest"
 	"github.com/openebs/jiva/replica"
 	"github.com/openebs/jiva/replica/rest"
 	"github.com/openebs/jiva/replica/rpc"
@@ -129,5 +131,91 @@ func ZZ_C19_StartReplicaClone() {
 		zzAssert(last == "completed", "C19.start.successful-clone-not-reported-completed")
 		zzAssert(len(zzStatusLog) > 0 && zzStatusLog[0] == "inProgress", "C19.start.clone-not-marked-inProgress-first")
 		zzAssert(len(done) == 0, "C19.start.replica-process-ended-after-successful-clone")
+	}
+}
+
+// ---- AutoConfigureReplica: how a (re)started replica process joins its volume ----------
+// It asks the controller how it is listed, waits while it is still listed as failed (ERR,
+// pending removal), closes the local server - only a closed replica can be attached - and
+// then goes through the add path (register / add-and-rebuild).  A detached replica comes
+// back only this way.
+
+var (
+	zzListScript []string // per poll: "fail", "absent", or the mode it is listed with
+	zzListPos    int
+	zzAppLog     []string
+	zzAddFails   bool
+)
+
+func zzNewControllerClient(url string) *client.ControllerClient { return &client.ControllerClient{} }
+func zzListReplicas(c *client.ControllerClient) ([]ctlrest.Replica, error) {
+	e := zzListScript[zzListPos]
+	if zzListPos < len(zzListScript)-1 {
+		zzListPos++
+	}
+	zzAppLog = append(zzAppLog, "list:"+e)
+	switch e {
+	case "fail":
+		return nil, errors.New("zz: controller unreachable")
+	case "absent":
+		return []ctlrest.Replica{{Address: "tcp://other:9502", Mode: "RW"}}, nil
+	}
+	return []ctlrest.Replica{{Address: "tcp://other:9502", Mode: "RW"}, {Address: "tcp://me:9502", Mode: e}}, nil
+}
+func zzServerClose(s *replica.Server) error { zzAppLog = append(zzAppLog, "close"); return nil }
+func zzTaskAddReplica(t *sync.Task, addr string, s *replica.Server) error {
+	zzAppLog = append(zzAppLog, "add:"+addr)
+	if zzAddFails {
+		return errors.New("zz: add failed")
+	}
+	return nil
+}
+func zzTaskAddQuorumReplica(t *sync.Task, addr string, s *replica.Server) error {
+	zzAppLog = append(zzAppLog, "addquorum:"+addr)
+	return nil
+}
+
+func ZZ_C05_AutoConfigure() {
+	zzAppLog = nil
+	zzListPos = 0
+	n := 1 + zzConcretize(zzChoice("polls", 3))
+	zzListScript = nil
+	for i := 0; i < n; i++ {
+		zzListScript = append(zzListScript, zzConcStr(zzPick("listed", "fail", "absent", "ERR", "RW", "WO", "")))
+	}
+	// the controller reaps a failed entry eventually: the script does not end on ERR
+	zzAssume(zzListScript[n-1] != "ERR")
+	zzAddFails = zzNondetBool("add.fails")
+	zzTrapFatal()
+	exited := zzTry(func() { AutoConfigureReplica(&replica.Server{}, "10.0.0.1", "tcp://me:9502", "Backend") })
+	adds, closes := 0, 0
+	closeAt, addAt := -1, -1
+	for i, e := range zzAppLog {
+		if e == "close" && closeAt < 0 {
+			closeAt = i
+			closes++
+		}
+		if len(e) > 4 && e[:4] == "add:" {
+			adds++
+			addAt = i
+			zzAssert(e == "add:tcp://me:9502", "C05.autoconfigure.added-another-address")
+		}
+	}
+	zzAssert(adds <= 1, "C05.autoconfigure.added-twice")
+	if adds == 1 {
+		zzReach("C05.autoconfigure.added")
+		zzAssert(closeAt >= 0 && closeAt < addAt, "C17.autoconfigure.add-requested-without-closing-the-local-replica-first")
+		// what the controller said last before the add: reachable, and not "still listed as failed"
+		last := ""
+		for i := 0; i < addAt; i++ {
+			if len(zzAppLog[i]) >= 5 && zzAppLog[i][:5] == "list:" {
+				last = zzAppLog[i][5:]
+			}
+		}
+		zzAssert(last != "ERR" && last != "fail", "C05.autoconfigure.add-requested-while-still-listed-as-failed")
+		zzAssert(zzAddFails == exited, "C05.autoconfigure.failed-add-did-not-stop-the-replica-process")
+	} else {
+		// never added: the controller kept failing / kept listing it as failed within the script
+		zzReach("C05.autoconfigure.not-added")
 	}
 }
